@@ -365,10 +365,17 @@ PENDING = ("check under construction in this round (model and correspondence not
 def main():
     props = [json.loads(l) for l in open(os.path.join(ROOT, "properties.jsonl"))]
     checks, na = [], []
+    import re
     for p in props:
         i = p["id"]
         if i in CLAIMS:
-            c = CLAIMS[i]
+            c = dict(CLAIMS[i])
+            # the theorem count quoted in the claim is taken from the last evidence file (what the audit of the
+            # last run actually counted), never typed by hand
+            ev = os.path.join(ROOT, "evidence", f"{i}.json")
+            if os.path.exists(ev):
+                n = len(json.load(open(ev))["coverage"].get("theorems", []))
+                c["text"] = re.sub(r"\b\d+ kernel-checked theorems", f"{n} kernel-checked theorems", c["text"], count=1)
             checks.append({
                 "property_id": i, "quick_cmd": f"./check {i} quick", "thorough_cmd": f"./check {i} thorough",
                 "evidence_file": f"evidence/{i}.json", "replay_cmd_template": "cat {path}", "engine": "lean4-model",
